@@ -20,6 +20,7 @@ META = {
         "completed externally; type/subtype/parent/name constant per id; a child's first update after its parent "
         "context's START; execution-level result at most once and last). Non-trivial = execution with >=1 crash or >=3 "
         "invocations; distinct = (program shape, invocation outcomes, crash plan)."
+        " Plus LinePreempt sweeps over state.py for four fixed programs (paged and unpaged responses)."
     ),
     "assumptions": ["the automaton in vf/simbackend.py is the trusted statement of the lifecycle the backend expects",
                     "updates are applied leniently after a violation is recorded (so one defect does not cascade)"],
